@@ -124,7 +124,7 @@ class SshProtocolMessage(ParsableBase):
             comment = ' '.join(software_version_and_comment[1:])
         else:
             comment = None
-        parser.parse_separator('\n')
+        parser.parse_separator('\n', 1, 1)
 
         if parser.parsed_length > 255:
             raise TooMuchData(parser.parsed_length - 255)
